@@ -43,8 +43,17 @@ func (rpSuite) Gen(r *rand.Rand, i int) Case {
 	size := sizes[r.Intn(len(sizes))]
 	ws := []int64{1, 7, 1_000_000, 1_000_000_000}
 	w := ws[r.Intn(len(ws))]
+	extreme := n > 0 && r.Intn(15) == 0
+	if extreme {
+		w = 1 // 1 ns buckets: the absolute bucket index can come within NumBuckets of MaxInt64
+	}
 	c := Case{Header: fmt.Sprintf("rp n=%d w=%d size=%d", n, w, size)}
 	g := &timeGen{n: max(n, 1), w: w}
+	if extreme {
+		g.cur = math.MaxInt64 - r.Int63n(int64(3*n+2))
+		c.Ops = append(c.Ops, fmt.Sprintf("snap %d", g.cur))
+		c.Tags = append(c.Tags, "top-of-index-range")
+	}
 	perBucket := map[int64]int{}
 	nops := 1 + r.Intn(40)
 	for j := 0; j < nops; j++ {
